@@ -283,13 +283,13 @@ def rule_restore(ck, rid="C11.R6"):
 
 
 def run(ck):
-    rule_heap_discipline(ck)
-    rule_heap_key(ck, rid="C11.R2")
-    rule_precedence(ck, rid="C11.R3")
-    rule_cut(ck)
-    rule_derived(ck)
-    rule_restore(ck)
+    ck.attempt(rule_heap_discipline)
+    ck.attempt(rule_heap_key, rid="C11.R2")
+    ck.attempt(rule_precedence, rid="C11.R3")
+    ck.attempt(rule_cut)
+    ck.attempt(rule_derived)
+    ck.attempt(rule_restore)
     # "a queue restored from JSON behaves identically": every attribute of the queue and of the pending events - timestamp,
     # type and precedence (public, user-settable, it breaks ties) - is dumped and restored (engine shared with C09)
     from .c09 import rule_agreement
-    rule_agreement(ck, classes=("EventQueue", "Event", "EVEvent", "PluginEvent", "UnplugEvent", "RecomputeEvent"), rid="C11.R6s", rid2="C11.R6s")
+    ck.attempt(rule_agreement, classes=("EventQueue", "Event", "EVEvent", "PluginEvent", "UnplugEvent", "RecomputeEvent"), rid="C11.R6s", rid2="C11.R6s")
